@@ -98,6 +98,8 @@ func checkC07(c *Ctx) {
 	exemptMut := map[string]string{}
 	if w := lazyOnceWrapper(c); w != nil {
 		exemptMut[FStr(w)] = "publishes the derived core once under sync.Once (decided by R7.6 / C09 R9.2)"
+	} else if w, _, _ := lazyMutexOnce(c); w != nil {
+		exemptMut[FStr(w)] = "publishes the derived core once under its own mutex and once-flag (decided by R7.6)"
 	}
 	var list []deriveM
 	for _, n := range []string{"With", "WithLazy", "Named", "WithOptions", "Sugar"} {
@@ -509,6 +511,12 @@ func lazyOnceWrapper(c *Ctx) *ssa.Function {
 func c7Lazy(c *Ctx) {
 	lz := c.Named(CorePath, "lazyWithCore")
 	init := lazyOnceWrapper(c)
+	if lz != nil && init == nil {
+		if mfn, flag, pub := lazyMutexOnce(c); mfn != nil {
+			c7LazyMutex(c, lz, mfn, flag, pub)
+			return
+		}
+	}
 	if lz != nil && init == nil {
 		// no sync.Once: is the evaluation - the wrapped core's With applied to the stored fields - made somewhere else?
 		var at ssa.Instruction
@@ -1373,4 +1381,184 @@ func c7TeeWith(c *Ctx, rule string) {
 		bad = append(bad[:2:2], "… "+itoa(len(bad)-2)+" more")
 	}
 	c.Check(len(bad) == 0, rule, FStr(mw), "every-branch-derived", mw.Pos(), "over %d paths on a two-branch tee: the result is a new slice holding branch[0].With(fields), branch[1].With(fields) - on every path, whatever the branches currently enable: %v", len(seqs), bad)
+}
+
+// lazyMutexOnce: the other way to evaluate exactly once - a method of lazyWithCore that holds a mutex of the object for
+// its whole run and is guarded by a flag it sets itself: by path exploration with the flag fixed to each value, with
+// the flag set the method does nothing but lock and unlock; with the flag clear it sets the flag, evaluates the
+// wrapped core's With on the stored fields exactly once and publishes the result - all between Lock and the deferred
+// Unlock. The flag is stored nowhere else. Equivalent to sync.Once (which also marks "done" when the function panics).
+// Returns the method, the flag's name and the published field's name.
+var lazyMutexOnceMemo struct {
+	prog        *Program
+	fn          *ssa.Function
+	flag, field string
+}
+
+func lazyMutexOnce(c *Ctx) (*ssa.Function, string, string) {
+	if lazyMutexOnceMemo.prog == c.Program {
+		return lazyMutexOnceMemo.fn, lazyMutexOnceMemo.flag, lazyMutexOnceMemo.field
+	}
+	lazyMutexOnceMemo.prog, lazyMutexOnceMemo.fn, lazyMutexOnceMemo.flag, lazyMutexOnceMemo.field = c.Program, nil, "", ""
+	lz := c.Named(CorePath, "lazyWithCore")
+	if lz == nil {
+		return nil, "", ""
+	}
+	st, _ := lz.Underlying().(*types.Struct)
+	if st == nil {
+		return nil, "", ""
+	}
+	var flags []string
+	for i := 0; i < st.NumFields(); i++ {
+		if b, ok := types.Unalias(st.Field(i).Type()).Underlying().(*types.Basic); ok && b.Kind() == types.Bool {
+			flags = append(flags, FN(st.Field(i)))
+		}
+	}
+	var cands []*ssa.Function
+	c.EachRootFunc(func(fn *ssa.Function) {
+		if rn := RecvNamed(fn); rn == nil || rn.Obj() != lz.Obj() || fn.Parent() != nil || len(fn.Params) != 1 {
+			return
+		}
+		for _, cl := range Calls(fn) {
+			if IsCallTo(cl, "(*sync.Mutex).Lock") {
+				if _, isF := fieldOfNamed(cl.Common().Args[0], lz); isF {
+					cands = append(cands, fn)
+				}
+			}
+		}
+	})
+	for _, fn := range cands {
+		rn := PN(fn.Params[0])
+		for _, flag := range flags {
+			pub := ""
+			explore := func(fv int64) ([]string, bool) {
+				return ConcPaths(fn, ConcCfg{
+					Conc: func(d string) (int64, bool) {
+						if d == rn+"."+flag {
+							return fv, true
+						}
+						return 0, false
+					},
+					DeferRun: func(d *ssa.Defer, st *ConcState) string {
+						if f := CalleeFunc(d); f != nil && f.FullName() == "(*sync.Mutex).Unlock" {
+							return "unlock"
+						}
+						return "deferred"
+					},
+					Event: func(in ssa.Instruction, st *ConcState) string {
+						switch x := in.(type) {
+						case *ssa.Call:
+							if IsCallTo(x, "(*sync.Mutex).Lock") {
+								return "lock"
+							}
+							if IsCallTo(x, "(*sync.Mutex).Unlock") {
+								return "unlock"
+							}
+							cc := x.Common()
+							if cc.IsInvoke() && FNm(cc.Method) == "With" && len(cc.Args) == 1 {
+								_, f1 := fieldOfNamed(cc.Value, lz)
+								_, f2 := fieldOfNamed(cc.Args[0], lz)
+								if f1 && f2 {
+									return "eval"
+								}
+							}
+							return "call"
+						case *ssa.Store:
+							if fa, ok := x.Addr.(*ssa.FieldAddr); ok {
+								if n, isF := fieldOfNamed(fa, lz); isF {
+									if n == flag {
+										if k, known := st.Int(x.Val); known && k == 1 {
+											return "set-flag"
+										}
+										return "store(" + n + ")"
+									}
+									pub = n
+									return "pub"
+								}
+							}
+						case *ssa.Return:
+							return "ret"
+						}
+						return ""
+					},
+				})
+			}
+			set, t1 := explore(1)
+			clr, t0 := explore(0)
+			if t1 || t0 || len(set) == 0 || len(clr) == 0 {
+				continue
+			}
+			ok := true
+			for _, sq := range set {
+				if sq != "lock ; unlock ; ret" {
+					ok = false
+				}
+			}
+			for _, sq := range clr {
+				if sq != "lock ; set-flag ; eval ; pub ; unlock ; ret" && sq != "lock ; eval ; pub ; set-flag ; unlock ; ret" {
+					ok = false
+				}
+			}
+			if !ok || pub == "" {
+				continue
+			}
+			// the flag and the published field are stored by this method only
+			elsewhere := false
+			c.EachRootFunc(func(g *ssa.Function) {
+				if g == fn {
+					return
+				}
+				for _, fs := range FieldStoresOf(g, lz) {
+					if fs.Field == flag || fs.Field == pub {
+						elsewhere = true
+					}
+				}
+			})
+			if elsewhere {
+				continue
+			}
+			lazyMutexOnceMemo.fn, lazyMutexOnceMemo.flag, lazyMutexOnceMemo.field = fn, flag, pub
+			return fn, flag, pub
+		}
+	}
+	return nil, "", ""
+}
+
+// c7LazyMutex: R7.6 for the mutex-and-flag form of the one-time evaluation (lazyMutexOnce has decided the method itself).
+func c7LazyMutex(c *Ctx, lz *types.Named, init *ssa.Function, flag, pubField string) {
+	c.OK("R7.6", FStr(init), "evaluates-once", init.Pos(), "holds the object's mutex for its whole run; with %s set it does nothing, with %s clear it sets it, evaluates originalCore.With(fields) once and publishes %s (both stored nowhere else): exactly one evaluation whatever the number of first users, the others wait for it", flag, flag, pubField)
+	for _, m := range []string{"With", "Check", "Write", "Sync"} {
+		fn := c.Method(CorePath, "lazyWithCore", m)
+		if !c.Anchor("R7.6", "zapcore.lazyWithCore."+m, fn != nil) {
+			continue
+		}
+		seqs, trunc := ConcPaths(fn, ConcCfg{
+			Inline: func(h *ssa.Function) bool { return h != init },
+			Event: func(in ssa.Instruction, st *ConcState) string {
+				switch x := in.(type) {
+				case *ssa.Call:
+					if x.Call.StaticCallee() == init {
+						return "once"
+					}
+					if x.Call.IsInvoke() && FNm(x.Call.Method) == m {
+						d := st.Desc(x.Call.Value)
+						if i := strings.LastIndex(d, "."); i >= 0 && d[i+1:] == pubField {
+							return "deleg-derived"
+						}
+						return "deleg:" + d
+					}
+				case *ssa.Return:
+					return "ret"
+				}
+				return ""
+			},
+		})
+		var bad []string
+		for _, sq := range seqs {
+			if sq != "once ; deleg-derived ; ret" {
+				bad = append(bad, sq)
+			}
+		}
+		c.Check(!trunc && len(seqs) > 0 && len(bad) == 0, "R7.6", FStr(fn), "init-before-delegation", fn.Pos(), "%s forces the one-time evaluation on every path and then delegates, once, to the derived core it published (a bypass gives parent and child different views of a mutable field); offending paths: %v", m, bad)
+	}
 }
